@@ -17,21 +17,29 @@ from ..common.leanio import InfraError
 
 PID = 'C14'
 DRIVERS = ['hier']
-MODULE = 'PymtlVerif.Props.C14'
+MODULE = ['PymtlVerif.Props.C14', 'PymtlVerif.Props.C14h']
 THEOREMS = ['PV.C14.' + t for t in [
   'bfs_indices', 'resolve_name', 'name_injective', 'record_determined', 'parent_longest_prefix', 'root_parent',
   'field_name', 'level_counts_prefixes', 'level_counts_components', 'host_deepest_component',
   'top_level_signal', 'int_index_is_slice', 'slice_of_slice', 'slice_record', 'resolve_complete', 'elab_sound',
   'rebuild_same_names', 'render_injective', 'repr_unique']]
+# the naming hook as an operation on the naming state (Model/HierHook.lean): attribute assignments and `+=`
+HOOK_THEOREMS = ['PV.C14h.' + t for t in [
+  'walk_indices', 'hook_names_resolve', 'hook_names_injective', 'hook_metadata', 'iadd_names_unnamed_elements',
+  'mutated_behind_hook_unnamed', 'append_behind_hook_unnamed', 'insert_behind_hook_unnamed']]
+THEOREMS = THEOREMS + HOOK_THEOREMS
+THEOREM_MODULE = {t: 'PymtlVerif.Props.C14h' for t in HOOK_THEOREMS}
 TRUSTED = [
   'Model/Hier.lean follows NamedObject.__setattr_for_elaborate__, Signal.__getattr__/__getitem__, Component._construct (clk/reset), get_host_component as they are in /repo',
   'lazily created field/slice signals are modelled as a created set over the space of possible children; "created once and cached" is represented by the record being a function of the heap location (theorem record_determined) and tied to the code by `eval(repr(o)) is o` and `eval(expr) is eval(canonical name)` in this check',
   'the tokenizer of this check (validated on every name by render(tokenise(s)) == s and against the Lean `render`)',
+  'Model/HierHook.lean follows NamedObject.__setattr_for_elaborate__ (object / list / anything-else branch, FieldReassignError, the same-list re-assignment of `s.x += [...]` since fix 0c15daa) as it is in /repo; a Python list that is reachable through several references is modelled by rewriting every occurrence of its identity (HSt.mutate); the interpreter of construct programs in Driver/HierHook.lean (evaluation order, _construct() of newly named objects, clk/reset of a component) is glue, tied by the exact comparison of access paths and _dsl records in c14_lists.py',
 ]
 ASSUMPTIONS = [
   'an object bound under a second attribute is named by its LAST binding (clean rule); generated for leaf objects and lists of leaf objects only, where this equals the description with the object constructed at the last binding (a whole interface / a signal that already has field or slice children keeps its children named through the old path and is not generated; a whole component is rejected by elaborate()); lists hold only NamedObjects, lists or None placeholders (None at any position, element 0 of the outermost list included since fix: c7238e1)',
   'slot / field names are Python identifiers that do not shadow attributes of Component / Interface / Signal; a component is never stored inside an interface (needed only for level = number of component prefixes)',
   'a repeated slot name is a FieldReassignError in the real code; the model reports the same error and otherwise keeps the first binding',
+  'hook theorems (Props/C14h): statements are `s.a = v` on an attribute name the owner does not have yet and `s.a += extra`; the objects put into a value are in the design already or new (no name, no attributes), never the owner itself; a list does not contain itself; hook_metadata additionally: objects bound again have no named children (otherwise known finding C14-rebind-object-with-descendants); a list changed by a list method after its assignment is outside the theorems (known finding C14-list-mutated-in-place, modelled by mutated_behind_hook_unnamed)',
 ]
 RULE = ('random construction description: component tree 1-4 deep, slots holding a signal / interface / method port / '
         'component or a nested list (1-3 dimensions, sometimes ragged, mixed, with empty sub-lists, with None holes: '
@@ -44,7 +52,11 @@ RULE = ('random construction description: component tree 1-4 deep, slots holding
         'new attribute of a component / interface) plus accesses through the old paths; '
         'separately: chains of 2-3 component classes with @method_port / @non_blocking / @blocking methods (derived classes override / add / '
         'only inherit decorated methods) elaborated under five histories of freshly created classes (alone, after base classes, after derived '
-        'classes, siblings in both orders): same names in every history; non-trivial = has a list slot or a lazily created signal; distinct = distinct canonical description')
+        'classes, siblings in both orders): same names in every history; separately (c14_lists.py): construct programs of components / interfaces '
+        'with list attributes changed after their assignment — `+=` once / several times / with nested lists / None holes / on lists first bound empty / on a list '
+        'bound under a second attribute name (extended through either name), lists of signals, interfaces and components; mode "mutated": append / extend / insert at the end / '
+        '`+=` on an inner list / slot assignment into a None hole (must reproduce exactly known finding C14-list-mutated-in-place); mode "moved": insert before the end / pop / slot '
+        'replacement, also followed by `+=`; non-trivial = has a list slot or a lazily created signal; distinct = distinct canonical description')
 
 # ------------------------------------------------------------------------------------------------
 # tokens
@@ -632,8 +644,8 @@ def apply_tok(v, t):
   if t[0] == 'i': return v[t[1]]
   return v[t[1]:t[2]]
 
-def oracle(ck, case, top, objs, tag, known=None):
-  """the property itself, stated on the real objects only"""
+def oracle_bad(top, objs):
+  """the property itself, stated on the real objects only: the list of failures (kind, name, observed)"""
   dsl = P()
   bad = []
   names = {}
@@ -688,6 +700,11 @@ def oracle(ck, case, top, objs, tag, known=None):
       want = (parent.get_field_name() + nm[len(repr(parent)):]) if is_slice else nm[len(repr(parent)) + 1:]
       if not nm.startswith(repr(parent)) or fn != want:
         bad.append(('field-name-inconsistent', nm, fn))
+  return bad
+
+def oracle(ck, case, top, objs, tag, known=None):
+  """the property itself, stated on the real objects only"""
+  bad = oracle_bad(top, objs)
   if known is not None:
     # directed reproduction of a registered finding: the kinds it is known to produce carry its signature,
     # anything else is reported as usual (and fails the run)
@@ -1233,7 +1250,9 @@ def rebind_object_with_descendants(ck):
 def run(ck):
   rng = ck.rng
   import gc
+  from . import c14_lists
   rebind_object_with_descendants(ck)
+  c14_lists.run_family(ck, sys.modules[__name__])
   for chain in DECORATED_CORPUS: decorated_history_case(ck, json.loads(json.dumps(chain)))
   for _ in range(24 if ck.tier == 'quick' else 1500):
     if len(ck.violations) >= 20: break
@@ -1279,6 +1298,9 @@ def replay(ck, data):
     for v in ck.violations: print('VIOLATION', v.kind, v.detail)
     for b in ck.breaks: print('DISAGREEMENT', b['correspondence'], b['model'], b['impl'])
     return 0 if ok and not ck.breaks else 1
+  if isinstance(case, dict) and case.get('family') == 'lists':
+    from . import c14_lists
+    return c14_lists.replay(ck, sys.modules[__name__], case)
   if isinstance(case, dict) and case.get('directed') == 'rebind_object_with_descendants':
     rebind_object_with_descendants(ck)
     for v in ck.violations: print('VIOLATION', v.kind, v.signature, v.detail)
